@@ -2,7 +2,7 @@
 #   make setup   – configure + build (MANIFEST.setup_cmd)
 #   make build   – incremental (called by every bin/check under flock)
 REPO    ?= /repo
-B       := /verif/build
+B       ?= /verif/build
 HOOKS   := $(B)/hooks
 BIN     := $(B)/bin
 JOBS    ?= 16
